@@ -27,6 +27,19 @@ func CLI(c Case) (out Case) {
 		}
 		out["ev"] = evs
 	}()
+	if _, ok := c["sfx"]; !ok { // cases recorded before the configuration fields existed (witnesses of fixed findings)
+		sfx, st := str(c, "kind"), "wellformed"
+		if sfx == "bad" {
+			sfx = strings.TrimPrefix(str(c, "ext"), ".")
+			switch {
+			case boolean(c, "missing"):
+				st = "missing"
+			case sfx != "txt":
+				st = "malformed"
+			}
+		}
+		out["sfx"], out["st"] = sfx, st
+	}
 	bin := os.Getenv("VERIF_GOPHERSAT")
 	if bin == "" {
 		panic("harness: VERIF_GOPHERSAT not set")
